@@ -203,15 +203,24 @@ fn op_pipeline(req: &Value) -> Value {
     let dir = write_project(req, "p");
     let operands: Vec<String> = req["operands"].as_array().map(|a| a.iter().map(|x| x.as_str().unwrap().to_string()).collect()).unwrap_or_default();
     let mut out = serde_json::Map::new();
+    // the configuration alone first, so that it (and the CLDR oracle tables) are reported even when a file fails to parse
+    {
+        let mut d = dir.clone();
+        match ConfigFile::new(&mut d) {
+            Ok(cfg) => {
+                let names: Vec<String> = cfg.locales.iter().map(|k| k.name.to_string()).collect();
+                out.insert("cfg".into(), cfg_json(&cfg));
+                out.insert("oracle".into(), oracle(&names, &operands));
+            }
+            Err(_) => {}
+        }
+    }
     let raw = parse_locales::parse_locales_raw(false, Some(dir.clone()));
     match raw {
         Err(e) => {
             out.insert("result".into(), err_json(&e));
         }
         Ok((locales, cfg, fks, warnings, tracked)) => {
-            let names: Vec<String> = cfg.locales.iter().map(|k| k.name.to_string()).collect();
-            out.insert("cfg".into(), cfg_json(&cfg));
-            out.insert("oracle".into(), oracle(&names, &operands));
             let prefix = format!("{}/", dir.display());
             out.insert("tracked".into(), json!(tracked.iter().map(|t| t.strip_prefix(&prefix).unwrap_or(t).to_string()).collect::<Vec<_>>()));
             let r = parse_locales::make_builder_keys(locales, &cfg, fks, &warnings, false);
